@@ -86,9 +86,26 @@ def q1(prog):
                 # direct store only (not through a pointer held in the global)
                 writes.append((f, x, r))
     inst.append(("Q1ii:global-writes", {"functions_scanned": n_scan, "writes_found": len(writes)}))
+    # balanced counters: a static integer whose ONLY writes are one `++` in a constructor and one `--` in the destructor of the
+    # same class.  Every scope that raises it lowers it again on every exit (also when unwinding), so no call can observe what an
+    # earlier, finished call did: it measures nesting depth, it does not remember.  (Recursion-depth guards are written this way.)
+    by_var = {}
+    for f, x, r in writes:
+        by_var.setdefault(r.get("id"), []).append((f, x))
+    balanced = set()
+    for vid, ws in by_var.items():
+        if len(ws) != 2 or not all(x.get("k") == "un" for _, x in ws):
+            continue
+        ops = sorted((x.get("op"), f.get("cls"), f["n"]) for f, x in ws)
+        (o1, c1, n1), (o2, c2, n2) = ops
+        if o1 == "++" and o2 == "--" and c1 and c1 == c2 and n2 == "~" + n1:
+            balanced.add(vid)
+    inst.append(("Q1ii:balanced-counters", {"exempt_by_structure": len(balanced)}))
     for f, x, r in writes:
         name = r.get("q") or r["n"]
         if (f["q"], name) in GLOBAL_WRITE_EXEMPT:
+            continue
+        if r.get("id") in balanced:
             continue
         findings.append({"key": "Q1ii:%s:%s" % (f["q"], name), "where": x.get("l") or f["l"],
                          "msg": "%s writes static-storage variable `%s`: state shared by all queries and executions" % (f["q"], name),
